@@ -19,6 +19,7 @@ from antismash.common.hmmscan_refinement import HMMResult
 from antismash.common.secmet import Record
 from antismash.common.secmet.features import Feature, Prepeptide
 from antismash.common.secmet.locations import CompoundLocation as C, FeatureLocation as F
+from antismash.common.secmet.qualifiers import GeneFunction
 from antismash.detection.nrps_pks_domains import domain_identification
 from antismash.detection.sideloader.data_structures import ProtoclusterAnnotation, SideloadedResults, SubRegionAnnotation, Tool
 from antismash.modules.tta.tta import TTAResults
@@ -44,6 +45,8 @@ LAYOUTS = {
     "nested": [("g0", [(12, 132)], 1, None), ("g1", [(42, 102)], -1, None), ("g2", [(150, 210)], 1, None)],
     "multiexon": [("g0", [(12, 42), (51, 81)], 1, None), ("g1", [(90, 120), (129, 159)], -1, None), ("g2", [(171, 231)], 1, None)],
     "codonstart": [("g0", [(12, 72)], 1, 2), ("g1", [(78, 138)], -1, 3), ("g2", [(150, 210)], 1, None)],
+    # two genes over the same bases on opposite strands: nothing but the strand tells their positions apart
+    "opposite": [("g0", [(12, 72)], 1, None), ("g1", [(12, 72)], -1, None), ("g2", [(150, 210)], 1, None)],
     "origin": [("g0", [(12, 72)], 1, None), ("g1", [(78, 138)], -1, None), ("g2", [(210, 240), (0, 30)], 1, None)],
     "origin-reverse": [("g0", [(30, 90)], 1, None), ("g1", [(100, 160)], 1, None), ("g2", [(222, 240), (0, 42)], -1, None)],
     # an origin-spanning gene with genes shortly before and after it and one far away: with the "spread" rules this gives one
@@ -169,6 +172,30 @@ def build_record(spec):
             # long values without a space to wrap at (a URL, a SMILES string, a sequence)
             subs.append(SubRegionAnnotation(6, 141, "x" * 130, TOOL, {"url": ["http://example.org/" + "a" * 90], "list": [",".join(["abcdefghij"] * 12)]},
                                             circular_origin=wrap))
+        if sideload == "identical-areas":
+            # annotations that differ only in their details: nothing an ordering can use
+            subs.append(SubRegionAnnotation(6, 141, "same", TOOL, {"score": ["1"]}, circular_origin=wrap))
+            subs.append(SubRegionAnnotation(6, 141, "same", TOOL, {"score": ["2"]}, circular_origin=wrap))
+            protos.append(ProtoclusterAnnotation(150, 210, "sideprod", TOOL, {"score": ["1"]}, 9, 12, circular_origin=wrap))
+            protos.append(ProtoclusterAnnotation(150, 210, "sideprod", TOOL, {"score": ["2"]}, 9, 12, circular_origin=wrap))
+        if sideload == "strand-tie":
+            # (with the 'separate' rules: detected protocluster of g0 with core [12:72) and extent [9:75) on the forward strand)
+            # a sideloaded protocluster - no strand - with the same extent and a separate core, and a third one overlapping
+            # both so that all three also get a single candidate: two singles equal in everything but the strand attribute
+            protos.append(ProtoclusterAnnotation(72, 75, "sideprod", TOOL, {}, 63, 0, circular_origin=wrap))
+            protos.append(ProtoclusterAnnotation(80, 90, "third", TOOL, {}, 10, 3, circular_origin=wrap))
+        if sideload == "exact-gene-span":
+            # (multiexon layout) a region that begins and ends exactly with a spliced gene
+            subs.append(SubRegionAnnotation(12, 81, "just the gene", TOOL, {}, circular_origin=wrap))
+        if sideload == "around-intron" and circular:
+            # (multiexon layout) a region over the origin that leaves out nothing but the intron of g1: [129:240) + [0:120)
+            subs.append(SubRegionAnnotation(129, 120, "all but an intron", TOOL, {}, circular_origin=wrap))
+        if sideload == "origin-twin-protos" and circular:
+            # two protoclusters with the same origin-crossing extent [210:240)+[0:100), one core after and one before the origin,
+            # and a third one overlapping them
+            protos.append(ProtoclusterAnnotation(10, 20, "post", TOOL, {}, 40, 80, circular_origin=wrap))
+            protos.append(ProtoclusterAnnotation(220, 230, "pre", TOOL, {}, 10, 110, circular_origin=wrap))
+            protos.append(ProtoclusterAnnotation(120, 130, "other", TOOL, {}, 40, 20, circular_origin=wrap))
         if sideload == "origin-protos" and circular:
             # sideloaded protoclusters around the origin: only the neighbourhood crosses it (either side), the core crosses it
             protos.append(ProtoclusterAnnotation(204, 234, "nbright", TOOL, {}, 9, 12, circular_origin=wrap))
@@ -216,6 +243,20 @@ def build_record(spec):
         first = rec.get_candidate_clusters()[0]
         first.smiles_structure = "NC(CC(=O)O)C(=O)O"
         first.polymer = "(asp) + (mal)"
+    if "smiles-long" in extras and "smiles" not in extras and rec.get_candidate_clusters():
+        # a structure longer than a GenBank line (SMILES strings hold no blanks)
+        first = rec.get_candidate_clusters()[0]
+        first.smiles_structure = "NC(CC(=O)O)C(=O)O" * 6
+        first.polymer = "(asp) + (mal)"
+    if "smiles-each" in extras and not extras & {"smiles", "smiles-long"}:
+        # every candidate cluster with a structure of its own, so that a structure ending up on another candidate shows
+        for cand in rec.get_candidate_clusters():
+            cand.smiles_structure = "C" * cand.get_candidate_cluster_number() + "O"
+            cand.polymer = f"(x{cand.get_candidate_cluster_number()})"
+    if "smcog-function" in extras:
+        # what smcog classification does to a gene: the description itself has the 'name: text' shape
+        gene = rec.get_cds_features()[0]
+        gene.gene_functions.add(GeneFunction.TRANSPORT, "smcogs", "SMCOG1000: ABC transporter ATP-binding protein (Score: 50; E-value: 1e-10)")
     if "prepeptide-plain" in extras:
         # a precursor without a subclass, leader or tail (e.g. lassopeptide style), on the last gene
         gene = rec.get_cds_features()[-1] if not rec.get_cds_features()[-1].location.crosses_origin() else rec.get_cds_features()[-2]
@@ -303,13 +344,14 @@ def describe(rec):
                           for p in rec.get_protoclusters()],
         # (attributes are read from the objects, not from their converted form, so a conversion that invents values shows)
         "candidates": [(c.get_candidate_cluster_number(), _loc(c.location), str(c.kind),
-                        [p.get_protocluster_number() for p in c.protoclusters], c.smiles_structure, c.polymer)
+                        [p.get_protocluster_number() for p in c.protoclusters], c.smiles_structure, c.polymer, _loc(c.core_location))
                        for c in rec.get_candidate_clusters()],
         "subregions": [(s.get_subregion_number(), _loc(s.location), s.tool, s.label) for s in rec.get_subregions()],
         "regions": [(r.get_region_number(), _loc(r.location), [c.get_candidate_cluster_number() for c in r.candidate_clusters],
                      [s.get_subregion_number() for s in r.subregions], sorted(c.get_name() for c in r.cds_children))
                     for r in rec.get_regions()],
-        "gene_functions": [(g.get_name(), sorted(str(f) for f in g.gene_functions)) for g in rec.get_cds_features()],
+        "gene_functions": [(g.get_name(), sorted((str(f), str(f.function), f.tool, f.description, f.product) for f in g.gene_functions))
+                           for g in rec.get_cds_features()],
         # the record keeps modules in insertion order, which carries no meaning: compared as a sorted list
         "modules": sorted((str(m.location), m.type if hasattr(m, "type") else "", [d.get_name() for d in m.domains], m.is_complete())
                           for m in rec.get_modules()),
@@ -332,7 +374,8 @@ def _parent_number(proto):
         return "stale"
 
 
-EXTRAS_MENU = ["pfam", "nrps", "prepeptide", "tta", "misc", "gene", "source", "cdsnote", "prepeptide-plain", "smiles", "nrps-double"]
+EXTRAS_MENU = ["pfam", "nrps", "prepeptide", "tta", "misc", "gene", "source", "cdsnote", "prepeptide-plain", "smiles", "nrps-double",
+               "smiles-long", "smcog-function", "smiles-each"]
 
 
 def specs(tier):
@@ -349,17 +392,25 @@ def specs(tier):
                 continue
             for rules in (None, "single", "twins", "mixed", "separate", "spread"):
                 for sideload in (None, "sub", "proto", "both", "twin-sub", "two-subs", "origin-sub", "origin-subs", "origin-protos",
-                                 "value-shapes", "unbreakable-values"):
-                    if sideload in ("origin-sub", "origin-subs", "origin-protos") and not circ:
+                                 "value-shapes", "unbreakable-values", "identical-areas", "strand-tie", "exact-gene-span", "around-intron",
+                                 "origin-twin-protos"):
+                    if sideload in ("origin-sub", "origin-subs", "origin-protos", "around-intron", "origin-twin-protos") and not circ:
                         continue
-                    if sideload in ("value-shapes", "unbreakable-values") and (rules is not None or layout not in ("plain", "origin")):
+                    if sideload in ("value-shapes", "unbreakable-values", "identical-areas") and (rules is not None or layout not in ("plain", "origin")):
+                        continue
+                    if sideload == "strand-tie" and (rules != "separate" or layout != "plain"):
+                        continue
+                    if sideload in ("exact-gene-span", "around-intron") and (rules is not None or layout != "multiexon"):
+                        continue
+                    if sideload == "origin-twin-protos" and (rules is not None or layout not in ("plain", "origin")):
                         continue
                     if rules is None and sideload is None:
                         continue
                     for extras in extra_sets:
                         if tier == "quick" and len(extras) > 0 and (rules, sideload) not in (("mixed", None), ("twins", "both"), ("single", "sub"),
                                                                                                  (None, "both"), ("separate", "origin-sub"), (None, "two-subs"),
-                                                                                                 ("spread", None), ("spread", "origin-subs"), (None, "origin-protos")):
+                                                                                                 ("spread", None), ("spread", "origin-subs"), (None, "origin-protos"),
+                                                                                                 (None, "origin-twin-protos"), ("separate", "strand-tie"), (None, "identical-areas")):
                             continue
                         out.append({"circ": circ, "layout": layout, "rules": rules, "sideload": sideload, "extras": extras})
     return out
